@@ -21,7 +21,7 @@ func isNil(x any) bool                           { return x == nil }
 // The debug string of a node is what a fresh compact writer without mapper holds after the node printed itself: the
 // same configuration Compile uses in compact mode, with no post-processing.
 //@ func ToString(node)
-//@   props C14
+//@   props C14 C11
 //@   assumes [wf] !isNil(node)
 //@   atcall ast:slotWriteTo [writer.config@C14] arg_cw != nil && fresh(arg_cw) && !arg_cw.PrettyPrint && arg_cw.Mapper == nil && arg_cw.IndentLevel == 0 && ast.WriterEmpty(arg_cw)
 //@   ensures [once@C14] ncalls("slotWriteTo") == 1 && callArg[ast.Node]("slotWriteTo", 0, 0) == node
